@@ -97,6 +97,34 @@ def batchFilterGt (ids : List Int) : List Int := ids.filter (fun i => decide (0 
 def selectNextGt (k : Nat) (screen : List Plate) (ids : List Int) : Except Err (List Plate) :=
   selectNext k screen (batchFilterGt ids)
 
+/-! ### which allowed plate is returned (`ChunkedScoresHolder.plate_id_with_minimum_score`) -/
+
+/-- first entry (storage order) that attains the minimum score: `argmin` -/
+def minStep (acc : Option (Nat × Int)) (e : Nat × Int) : Option (Nat × Int) :=
+  match acc with
+  | none => some e
+  | some b => if e.2 < b.2 then some e else some b
+
+def firstMin (l : List (Nat × Int)) : Option (Nat × Int) := l.foldl minStep none
+
+/-- `plate_ids[mask][scores[mask].argmin()]` with `mask = isin(plate_ids, eligible ids)`: the score table (plate id, score -- equal
+    numbers are equal, `-0.0` and `0.0` alike) is masked to the allowed ids FIRST, the argmin is taken inside the masked table -/
+def argminAllowed (table : List (Nat × Int)) (allowed : List Nat) : Option Nat :=
+  (firstMin (table.filter (fun e => allowed.contains e.1))).map (fun e => e.1)
+
+/-- `select_next_plate` including the choice: `none` when the policy allows nothing, else the allowed plate with the best score -/
+def selectPlate (k : Nat) (screen : List Plate) (ids : List Int) (table : List (Nat × Int)) : Except Err (Option Nat) :=
+  match selectNext k screen ids with
+  | .error e => .error e
+  | .ok el => if el.isEmpty then .ok none else .ok (argminAllowed table (el.map (fun p => p.id)))
+
+/-- REGRESSION DEFINITION (seeded change S8-C16, not the code in /repo): `best = scores[mask].min()` and then
+    `plate_ids[scores == best][0]` -- the value lookup runs over the WHOLE table, the mask is lost -/
+def argminValueLookup (table : List (Nat × Int)) (allowed : List Nat) : Option Nat :=
+  match firstMin (table.filter (fun e => allowed.contains e.1)) with
+  | none => none
+  | some b => (table.find? (fun e => e.2 == b.2)).map (fun e => e.1)
+
 /-! ### rounds -/
 
 /-- `Screen.set_observed` applied to the rows of the plates of a finished batch: those plates become observed, nothing else
